@@ -84,15 +84,22 @@ func critical(ctx context.Context, st *GState, what string) {
 		env.mu.Unlock()
 	}
 	if st != nil {
+		// the harness may read a state while a node that does not lead to END is still running after
+		// the run returned: harness-side accesses are serialised by StateMu (the framework's own mutex
+		// is what the monitor above checks)
+		stateMuOf(env).Lock()
 		c := st.Count[what]
+		stateMuOf(env).Unlock()
 		if mon != nil && mon.Yield != nil {
 			mon.Yield()
 		}
+		stateMuOf(env).Lock()
 		if st.Count == nil {
 			st.Count = map[string]int{}
 		}
 		st.Count[what] = c + 1
 		st.Log = append(st.Log, what)
+		stateMuOf(env).Unlock()
 	}
 	if mon != nil {
 		atomic.AddInt32(&mon.inside, -1)
@@ -268,4 +275,24 @@ func lastIndexByte(s string, c byte) int {
 		}
 	}
 	return -1
+}
+
+var globalStateMu sync.Mutex
+
+func stateMuOf(env *CallEnv) *sync.Mutex {
+	if env == nil {
+		return &globalStateMu
+	}
+	return &env.StateMu
+}
+
+// CountsOf returns a copy of the counters of a state, safe against callbacks still running.
+func (e *CallEnv) CountsOf(st *GState) map[string]int {
+	e.StateMu.Lock()
+	defer e.StateMu.Unlock()
+	out := make(map[string]int, len(st.Count))
+	for k, v := range st.Count {
+		out[k] = v
+	}
+	return out
 }
